@@ -339,7 +339,33 @@ var vfTreeNames = []string{"a", "b", "c", "d"}
 
 // step runs one operation on every server. Returns false when the episode
 // must stop.
+// reconfigure flips the cache switches of every server at runtime (UpdateTuningOptions): the
+// caches stay transparent whatever their settings are and whenever they change.
+func (t *vfTree) reconfigure() {
+	for i, s := range t.srv {
+		flipDir, flipNeg := t.rng.Intn(2) == 0, t.rng.Intn(2) == 0
+		if t.forced != nil { // scripted: switch the directory cache OFF where it is on
+			flipDir, flipNeg = true, false
+		}
+		s.nfs.UpdateTuningOptions(func(tu *TuningOptions) {
+			if flipDir {
+				tu.EnableDirCache = !tu.EnableDirCache
+			}
+			if flipNeg {
+				tu.CacheNegativeLookups = !tu.CacheNegativeLookups
+			}
+		})
+		_ = i
+	}
+	t.ops = append(t.ops, "RECONFIGURE (cache switches flipped at runtime on every server)")
+	t.rec.Add("runtime_cache_reconfigurations", 1)
+}
+
 func (t *vfTree) step() bool {
+	if t.forced == nil && t.rng.Intn(45) == 0 {
+		t.reconfigure()
+		return true
+	}
 	k := t.rng.Intn(100)
 	name := vfTreeNames[t.rng.Intn(len(vfTreeNames))]
 	h := t.pickHandle(true)
@@ -853,6 +879,9 @@ var vfScripts = [][]string{
 		"LOOKUP / a", "LOOKUP /a s", "LOOKUP /a/s f", "GETATTR /a/s/f", "READDIRPLUS /a/s", "LOOKUP / c", "LOOKUP /c s", "LOOKUP /c/s f", "GETATTR /c/s/f"},
 	// a miss remembered two levels below a name, then another tree renamed onto that name
 	{"MKDIR / n", "MKDIR /n s", "LOOKUP /n/s x", "RMDIR /n s", "RMDIR / n", "MKDIR / m", "MKDIR /m s", "CREATE /m/s x", "RENAME / m / n", "LOOKUP / n", "LOOKUP /n s", "LOOKUP /n/s x", "READDIR /n/s"},
+	// the directory cache is switched off at runtime after it has served a listing: every kind of
+	// mutation that follows must still show in the next listing
+	{"MKDIR / d", "READDIR /d", "TOGGLE", "CREATE /d f", "READDIR /d", "MKDIR /d g", "READDIRPLUS /d", "SYMLINK /d s zz", "READDIR /d", "REMOVE /d f", "READDIR /d", "RMDIR /d g", "READDIR /d", "RENAME /d s / s", "READDIR /d", "TOGGLE", "CREATE /d k", "READDIR /d"},
 	// the same one level deeper on the source side: entries below the OLD name of a moved tree
 	{"MKDIR / a", "MKDIR /a s", "CREATE /a/s f", "LOOKUP /a/s f", "RENAME / a / b", "MKDIR / a", "MKDIR /a s", "LOOKUP / a", "LOOKUP /a s", "LOOKUP /a/s f", "READDIR /a/s", "SYMLINK /a/s f zz", "LOOKUP /a/s f", "READLINK /a/s/f"},
 }
@@ -861,6 +890,12 @@ var vfScripts = [][]string{
 func (t *vfTree) runScript(steps []string) bool {
 	for _, st := range steps {
 		f := strings.Fields(st)
+		if f[0] == "TOGGLE" {
+			t.forced = &vfForced{}
+			t.reconfigure()
+			t.forced = nil
+			continue
+		}
 		fo := &vfForced{k: vfScriptK[f[0]], h: t.handleFor(f[1]), plus: f[0] == "READDIRPLUS"}
 		if fo.h == nil {
 			return true // the handle was never issued on this run; nothing to do
